@@ -383,21 +383,6 @@ theorem writeStep_shape {c0 : Int} {mf : Nat} {s s' : Stream} {c : Int} {f : Fra
       · cases hw
       · cases hw; exact ⟨rfl, rfl, rfl⟩
 
-theorem rsim_write {st : State} {r : Recv} (h : RInv (rview st) r)
-    (hnd : (st.streams.map (·.id)).Nodup) (id : Nat) :
-    ∃ r', Recv.run r ((write st id).2.map Event.c) = .ok r' ∧ RInv (rview (write st id).1) r' := by
-  unfold write
-  split
-  · exact ⟨r, rfl, h⟩
-  · rename_i s hf
-    split
-    · exact ⟨r, rfl, h⟩
-    · rename_i c s' f hw
-      obtain ⟨h1, h2, h3⟩ := writeStep_shape hw
-      refine ⟨r, ?_, rinv_settle (st := { st with connOut := c }) h hnd hf h1 h2⟩
-      simp only [List.map_cons, List.map_nil]
-      rw [recv_run_cons_c (recv_ignores h3)]; rfl
-
 theorem rsim_cancel {st : State} {r : Recv} (h : RInv (rview st) r)
     (hnd : (st.streams.map (·.id)).Nodup) (id : Nat) :
     ∃ r', Recv.run r ((cancel st id).2.map Event.c) = .ok r' ∧ RInv (rview (cancel st id).1) r' := by
@@ -407,30 +392,6 @@ theorem rsim_cancel {st : State} {r : Recv} (h : RInv (rview st) r)
   · rename_i s hf
     split
     · exact rsim_terminate h hnd false hf rfl rfl
-    · exact ⟨r, rfl, h⟩
-
-theorem rsim_read {st : State} {r : Recv} (h : RInv (rview st) r)
-    (hnd : (st.streams.map (·.id)).Nodup) (id n : Nat) :
-    ∃ r', Recv.run r ((Conn.read st id n).2.map Event.c) = .ok r' ∧ RInv (rview (Conn.read st id n).1) r' := by
-  unfold Conn.read
-  split
-  · exact ⟨r, rfl, h⟩
-  · rename_i s hf
-    have hsid : s.id = id := (findStream_mem hf).2
-    split
-    · unfold readCore
-      split
-      · exact ⟨r, rfl, h⟩
-      · rename_i ci connAdd hc
-        split
-        · exact ⟨r, rfl, h⟩
-        · rename_i si streamAdd hs
-          obtain ⟨r1, hr1, hi1⟩ := rsim_wu_conn (v := rview st) h hc
-          obtain ⟨r2, hr2, hi2⟩ := rsim_wu_stream (v := { (rview st) with connIn := ci }) hi1 hnd hf
-            (s' := { s with inflow := si, buffered := s.buffered - (if n < s.buffered then n else s.buffered) }) rfl hs
-          refine ⟨r2, ?_, hi2⟩
-          rw [List.map_append, hsid]
-          exact recv_run_ok_append hr1 hr2
     · exact ⟨r, rfl, h⟩
 
 theorem rsim_creditConn {x : State × List Frame} {r r' : Recv}
@@ -447,6 +408,71 @@ theorem rsim_creditConn {x : State × List Frame} {r r' : Recv}
       exact recv_run_ok_append hrun hr1
   · exact ⟨r', hrun, hinv⟩
 
+theorem rsim_closeStream {st : State} {r : Recv} (h : RInv (rview st) r)
+    (hnd : (st.streams.map (·.id)).Nodup) {id : Nat} {s s' : Stream}
+    (hf : findStream st.streams id = some s) (h1 : s'.id = s.id) (h2 : s'.inflow = s.inflow) :
+    ∃ r1, Recv.run r ((closeStream st s s').2.map Event.c) = .ok r1 ∧
+      RInv (rview (closeStream st s s').1) r1 := by
+  unfold closeStream
+  split
+  · exact rsim_terminate h hnd false hf h1 h2
+  · exact ⟨r, rfl, rinv_set_same h (v := rview st) hnd hf h1 h2⟩
+
+theorem rsim_readCore {st : State} {r : Recv} (h : RInv (rview st) r)
+    (hnd : (st.streams.map (·.id)).Nodup) {id : Nat} {s s' : Stream}
+    (hf : findStream st.streams id = some s) (h1 : s'.id = s.id) (h2 : s'.inflow = s.inflow) (k : Nat) :
+    ∃ r', Recv.run r ((readCore st s' k).2.map Event.c) = .ok r' ∧ RInv (rview (readCore st s' k).1) r' := by
+  have hsid : s.id = id := (findStream_mem hf).2
+  unfold readCore
+  split
+  · exact ⟨r, rfl, h⟩
+  · rename_i ci connAdd hc
+    split
+    · exact ⟨r, rfl, h⟩
+    · rename_i si streamAdd hs
+      obtain ⟨r1, hr1, hi1⟩ := rsim_wu_conn (v := rview st) h hc
+      obtain ⟨r2, hr2, hi2⟩ := rsim_wu_stream (v := { (rview st) with connIn := ci }) hi1 hnd hf
+        (s' := { s' with inflow := si, buffered := s'.buffered - k }) h1 (by rw [← h2]; exact hs)
+      refine ⟨r2, ?_, hi2⟩
+      rw [List.map_append, h1, hsid]
+      exact recv_run_ok_append hr1 hr2
+
+theorem rsim_readOverlong {st : State} {r : Recv} (h : RInv (rview st) r)
+    (hnd : (st.streams.map (·.id)).Nodup) {id : Nat} {s : Stream}
+    (hf : findStream st.streams id = some s) (k : Nat) :
+    ∃ r', Recv.run r ((readOverlong st s k).2.map Event.c) = .ok r' ∧
+      RInv (rview (readOverlong st s k).1) r' := by
+  unfold readOverlong
+  obtain ⟨r1, hr1, hi1⟩ := rsim_closeStream h hnd hf
+    (s' := { s with buffered := s.buffered - k, readErr := true }) rfl rfl
+  simp only
+  split
+  · exact rsim_creditConn hr1 hi1 _
+  · exact ⟨r1, hr1, hi1⟩
+
+theorem rsim_readK {st : State} {r : Recv} (h : RInv (rview st) r)
+    (hnd : (st.streams.map (·.id)).Nodup) {id : Nat} {s : Stream}
+    (hf : findStream st.streams id = some s) (k : Nat) :
+    ∃ r', Recv.run r ((readK st s k).2.map Event.c) = .ok r' ∧ RInv (rview (readK st s k).1) r' := by
+  unfold readK
+  split
+  · exact rsim_readCore h hnd hf rfl rfl _
+  · rename_i rem _
+    split
+    · exact rsim_readOverlong h hnd hf _
+    · exact rsim_readCore (s' := { s with bytesRemain := some (rem - k) }) h hnd hf rfl rfl _
+
+theorem rsim_read {st : State} {r : Recv} (h : RInv (rview st) r)
+    (hnd : (st.streams.map (·.id)).Nodup) (id n : Nat) :
+    ∃ r', Recv.run r ((Conn.read st id n).2.map Event.c) = .ok r' ∧ RInv (rview (Conn.read st id n).1) r' := by
+  unfold Conn.read
+  split
+  · exact ⟨r, rfl, h⟩
+  · rename_i s hf
+    split
+    · exact rsim_readK h hnd hf _
+    · exact ⟨r, rfl, h⟩
+
 theorem rsim_close {st : State} {r : Recv} (h : RInv (rview st) r)
     (hnd : (st.streams.map (·.id)).Nodup) (id : Nat) :
     ∃ r', Recv.run r ((close st id).2.map Event.c) = .ok r' ∧ RInv (rview (close st id).1) r' := by
@@ -455,13 +481,7 @@ theorem rsim_close {st : State} {r : Recv} (h : RInv (rview st) r)
   · exact ⟨r, rfl, h⟩
   · rename_i s hf
     split
-    · have hcs : ∃ r1, Recv.run r ((closeStream st s { s with broken := true, buffered := 0 }).2.map Event.c) = .ok r1 ∧
-          RInv (rview (closeStream st s { s with broken := true, buffered := 0 }).1) r1 := by
-        unfold closeStream
-        split
-        · exact rsim_terminate h hnd false hf rfl rfl
-        · exact ⟨r, rfl, rinv_set_same h (v := rview st) hnd hf rfl rfl⟩
-      obtain ⟨r1, hr1, hi1⟩ := hcs
+    · obtain ⟨r1, hr1, hi1⟩ := rsim_closeStream h hnd hf (s' := { s with broken := true, buffered := 0 }) rfl rfl
       exact rsim_creditConn hr1 hi1 _
     · exact ⟨r, rfl, h⟩
 
@@ -499,12 +519,13 @@ theorem rrels_append {l : List Stream} {rl : List (Nat × Int × Bool)} (h : RRe
   | nil => exact RRels.cons hr RRels.nil
   | cons h0 _ ih => exact RRels.cons h0 ih
 
-theorem rsim_doOpen {st : State} {r : Recv} (h : RInv (rview st) r) (hdrLen bodyLen : Nat) (known : Bool)
-    (hlen : 0 < hdrLen) :
-    ∃ r', Recv.run r ((doOpen st hdrLen bodyLen known).2.map Event.c) = .ok r' ∧
-      RInv (rview (doOpen st hdrLen bodyLen known).1) r' := by
+theorem rsim_doOpen {st : State} {r : Recv} (h : RInv (rview st) r) (rq : Req)
+    (hlen : 0 < rq.hdrLen) :
+    ∃ r', Recv.run r ((doOpen st rq).2.map Event.c) = .ok r' ∧
+      RInv (rview (doOpen st rq).1) r' := by
   have hlast : st.nextStreamID > r.lastId := h.lastId
-  have hrun := rheaders_run r st.nextStreamID hdrLen (!(!(known && bodyLen == 0))) st.maxFrameSize st.cfg.hdrPrio
+  have hrun := rheaders_run r st.nextStreamID rq.hdrLen
+    (endOnHeaders st.cfg.fixes (!(rq.known && rq.bodyLen == 0)) rq.trailer) st.maxFrameSize st.cfg.hdrPrio
     st.cfg.fixes.hdrPrio hlen hlast
   simp only [doOpen]
   refine ⟨_, hrun, ?_⟩
@@ -520,35 +541,88 @@ theorem rsim_doOpen {st : State} {r : Recv} (h : RInv (rview st) r) (hdrLen body
     apply rrels_append h.rel
     exact { id := rfl, win := h.initWin, ok := h.initOK }
 
-theorem rsim_openStream {st : State} {r : Recv} (h : RInv (rview st) r) (hdrLen bodyLen : Nat) (known : Bool)
-    (hlen : 0 < hdrLen) :
-    ∃ r', Recv.run r ((openStream st hdrLen bodyLen known).2.map Event.c) = .ok r' ∧
-      RInv (rview (openStream st hdrLen bodyLen known).1) r' := by
+theorem rsim_openStream {st : State} {r : Recv} (h : RInv (rview st) r) (rq : Req)
+    (hlen : 0 < rq.hdrLen) :
+    ∃ r', Recv.run r ((openStream st rq).2.map Event.c) = .ok r' ∧
+      RInv (rview (openStream st rq).1) r' := by
   unfold openStream
   split
   · exact ⟨r, rfl, h⟩
   · split
     · exact ⟨r, rfl, h⟩
     · split
-      · exact rsim_doOpen h hdrLen bodyLen known hlen
+      · exact rsim_doOpen h rq hlen
       · exact ⟨r, rfl, h⟩
 
 theorem rsim_resumePending {st : State} {r : Recv} (h : RInv (rview st) r)
-    (hp : ∀ a b c, st.pendingOpen = some (a, b, c) → a > 0) :
+    (hp : ∀ a, st.pendingOpen = some a → a.hdrLen > 0) :
     ∃ r', Recv.run r ((resumePending st).2.map Event.c) = .ok r' ∧
       RInv (rview (resumePending st).1) r' := by
   unfold resumePending
   split
   · exact ⟨r, rfl, h⟩
-  · rename_i hd bd kd hpo
+  · rename_i rq hpo
     simp only
     split
     · exact ⟨r, rfl, h⟩
     · split
       · exact ⟨r, rfl, h⟩
       · split
-        · exact rsim_doOpen (st := { st with pendingOpen := none }) h hd bd kd (hp hd bd kd hpo)
+        · exact rsim_doOpen (st := { st with pendingOpen := none }) h rq (hp rq hpo)
         · exact ⟨r, rfl, h⟩
+
+/-- a header block on a stream the peer already knows (request trailers) does not concern the
+receive side -/
+theorem rknown_headers_run (id : Nat) (es : Bool) (mf : Nat) (prio fix : Bool) :
+    ∀ (fuel len : Nat) (first : Bool) (r : Recv), ¬ id > r.lastId →
+      Recv.run r ((headerFrames fuel id len es mf prio fix first).map Event.c) = .ok r := by
+  intro fuel
+  induction fuel with
+  | zero => intro len first r _; rfl
+  | succ fuel ih =>
+    intro len first r hid
+    simp only [headerFrames]
+    split
+    · rfl
+    · simp only [List.map_cons]
+      cases first with
+      | true =>
+        simp only [if_true]
+        rw [recv_run_cons_c (m' := r) (by simp [Recv.client, hid])]
+        exact ih _ false r hid
+      | false =>
+        simp only [Bool.false_eq_true, if_false]
+        rw [recv_run_cons_c (m' := r) rfl]
+        exact ih _ false r hid
+
+theorem rsim_write {st : State} {r : Recv} (h : RInv (rview st) r)
+    (hnd : (st.streams.map (·.id)).Nodup) (id : Nat) :
+    ∃ r', Recv.run r ((write st id).2.map Event.c) = .ok r' ∧ RInv (rview (write st id).1) r' := by
+  unfold write
+  split
+  · exact ⟨r, rfl, h⟩
+  · rename_i s hf
+    split
+    · rename_i s' fs ht
+      unfold trailerStep at ht
+      split at ht
+      · cases ht
+      · split at ht
+        · cases ht
+          obtain ⟨e, _, hre, hmem, _⟩ := rrels_find h.rel hf
+          have hid : ¬ s.id > r.lastId := by
+            have := (h.ids e hmem).1
+            rw [hre.id] at this; omega
+          exact ⟨r, rknown_headers_run s.id true _ _ _ _ _ true r hid,
+            rinv_settle h hnd hf (s' := { s with sentEnd := true }) rfl rfl⟩
+        · cases ht
+    · split
+      · exact ⟨r, rfl, h⟩
+      · rename_i c s' f hw
+        obtain ⟨h1, h2, h3⟩ := writeStep_shape hw
+        refine ⟨r, ?_, rinv_settle (st := { st with connOut := c }) h hnd hf h1 h2⟩
+        simp only [List.map_cons, List.map_nil]
+        rw [recv_run_cons_c (recv_ignores h3)]; rfl
 
 
 /-! ### peer events -/
@@ -695,14 +769,14 @@ theorem rsim_peerGoAway {st : State} {m : Send} {r : Recv} (hs : SInv (view st) 
   unfold peerGoAway
   exact rsim_abortAbove last _ (st := { st with goAway := true }) hs h
 
-theorem rsim_peerHeaders {st : State} {r : Recv} (h : RInv (rview st) r)
-    (hnd : (st.streams.map (·.id)).Nodup) (id : Nat) (es : Bool) :
-    ∃ r', Recv.run (r.peer (.headers id es)) ((peerHeaders st id es).2.map Event.c) = .ok r' ∧
-      RInv (rview (peerHeaders st id es).1) r' := by
-  have hbase : RInv (rview st) (r.peer (.headers id es)) := by
+theorem rsim_peerResp {st : State} {r : Recv} (h : RInv (rview st) r)
+    (hnd : (st.streams.map (·.id)).Nodup) (id : Nat) (es : Bool) (status : Nat) (cl : Option Nat) :
+    ∃ r', Recv.run (r.peer (.resp id es status cl)) ((peerResp st id es status cl).2.map Event.c) = .ok r' ∧
+      RInv (rview (peerResp st id es status cl).1) r' := by
+  have hbase : RInv (rview st) (r.peer (.resp id es status cl)) := by
     simp only [Recv.peer]
     exact rinv_peer_flags h _ (fun e => by split <;> simp)
-  unfold peerHeaders
+  unfold peerResp
   split
   · exact ⟨_, rfl, hbase⟩
   · rename_i s hf
@@ -711,7 +785,13 @@ theorem rsim_peerHeaders {st : State} {r : Recv} (h : RInv (rview st) r)
     · split
       · exact rsim_terminate hbase hnd false hf rfl rfl
       · split
-        · exact ⟨_, rfl, rinv_settle hbase hnd hf rfl rfl⟩
+        · split
+          · exact rsim_terminate hbase hnd false hf rfl rfl
+          · split
+            · split
+              · exact rsim_terminate hbase hnd false hf rfl rfl
+              · exact ⟨_, rfl, rinv_set_same hbase (v := rview st) hnd hf rfl rfl⟩
+            · exact ⟨_, rfl, rinv_settle hbase hnd hf rfl rfl⟩
         · split
           · exact ⟨_, rfl, hbase⟩
           · exact ⟨_, rfl, rinv_settle hbase hnd hf rfl rfl⟩
@@ -746,6 +826,52 @@ theorem find_setStream {l : List Stream} {id : Nat} {s s' : Stream}
       have : ¬ a.id = s'.id := by rw [h1, hsid]; exact ha
       simp only [this, if_false, List.find?, ha, decide_false]
       exact ih hf
+
+theorem forget_connIn (st : State) (s : Stream) (c : Inflow) :
+    ({ (forget st s) with connIn := c } : State) = forget { st with connIn := c } s := by
+  unfold forget; simp only; split <;> rfl
+
+theorem terminate_connIn (st : State) (s : Stream) (b : Bool) (c : Inflow) :
+    terminate { st with connIn := c } s b =
+      ({ (terminate st s b).1 with connIn := c }, (terminate st s b).2) := by
+  unfold terminate; simp only [forget_connIn]
+
+/-- a DATA frame dropped with a stream error; `hbase` = after the peer's own bookkeeping -/
+theorem rsim_discardData {st : State} {r rp : Recv} (h : RInv (rview st) r)
+    (hnd : (st.streams.map (·.id)).Nodup) {id : Nat} {s : Stream} (hf : findStream st.streams id = some s)
+    (n : Nat) (hbase : RInv (rview st) rp) (hrp : rp.connWin = r.connWin - (n : Int)) :
+    ∃ r', Recv.run rp ((discardData st s (n : Int)).2.map Event.c) = .ok r' ∧
+      RInv (rview (discardData st s (n : Int)).1) r' := by
+  have hcw : r.connWin ≤ st.connIn.avail := h.connWin
+  have hcok : InflowOK st.connIn := h.connOK
+  unfold discardData
+  simp only
+  split
+  · have htk := take_ok (f := st.connIn) (n := n) hcok
+    rcases hT : Inflow.take st.connIn (n : Int) with ⟨ci, ok⟩
+    rw [hT] at htk
+    simp only at htk
+    split
+    · exact ⟨_, rfl, hbase⟩
+    · rename_i ci' connAdd hadd
+      split
+      · exact ⟨_, rfl, hbase⟩
+      · rename_i hok
+        have hok' : ok = true := by
+          cases ok with
+          | true => rfl
+          | false => exact absurd rfl hok
+        have hav := htk.2.2.1 hok'
+        have h1 : RInv (rview { st with connIn := ci }) rp :=
+          { hbase with connWin := by simp only [rview]; omega, connOK := htk.1 }
+        obtain ⟨r1, hr1, hi1⟩ := rsim_terminate (st := { st with connIn := ci }) h1 hnd false hf (s' := s) rfl rfl
+        rw [terminate_connIn] at hr1 hi1
+        simp only at hr1 hi1
+        obtain ⟨r2, hr2, hi2⟩ := rsim_wu_conn (v := rview { (terminate st s false).1 with connIn := ci }) hi1 hadd
+        refine ⟨r2, ?_, hi2⟩
+        rw [List.map_append]
+        exact recv_run_ok_append hr1 hr2
+  · exact rsim_terminate hbase hnd false hf rfl rfl
 
 theorem rsim_peerData {st : State} {r : Recv} (h : RInv (rview st) r)
     (hnd : (st.streams.map (·.id)).Nodup) (id len pad : Nat) (es : Bool) :
@@ -798,7 +924,7 @@ theorem rsim_peerData {st : State} {r : Recv} (h : RInv (rview st) r)
         · cases hfs
     have hsid : s.id = id := (findStream_mem hfl).2
     split
-    · exact rsim_terminate hbase hnd false hfl rfl rfl
+    · exact rsim_discardData h hnd hfl (len + pad) hbase (by simp only [Recv.peer])
     · split
       · obtain ⟨e, _, hre, _, _⟩ := rrels_find h.rel hfl
         have hto := takeInflows_ok (f1 := st.connIn) (f2 := s.inflow) (n := len + pad) hcok hre.ok
@@ -858,14 +984,20 @@ theorem rsim_peer {st : State} {m : Send} {r : Recv} (hs : SInv (view st) m) (h 
   | windowUpdate id inc => exact rsim_peerWindowUpdate h hs.nodup id inc
   | rst id code => exact rsim_peerRst h hs.nodup id code
   | goaway last => exact rsim_peerGoAway hs h last
-  | headers id e => exact rsim_peerHeaders h hs.nodup id e
+  | resp id e status cl => exact rsim_peerResp h hs.nodup id e status cl
   | data id len pad e => exact rsim_peerData h hs.nodup id len pad e
+  | ping ack d =>
+    simp only [Conn.peer, peerPing]
+    split
+    · exact ⟨r, rfl, h⟩
+    · exact ⟨r, rfl, h⟩
+  | pushPromise id p => exact ⟨r, rfl, h⟩
 
 theorem rsim_apply {st : State} {m : Send} {r : Recv} (hs : SInv (view st) m) (h : RInv (rview st) r)
     (op : Op) (hok : op.ok) :
     ∃ r', Recv.run r (opEvents op (apply st op).2) = .ok r' ∧ RInv (rview (apply st op).1) r' := by
   cases op with
-  | openStream hl b k => exact rsim_openStream h hl b k hok
+  | openReq rq => exact rsim_openStream h rq hok
   | feed id n => exact rsim_feed h hs.nodup id n
   | write id => exact rsim_write h hs.nodup id
   | cancel id => exact rsim_cancel h hs.nodup id
@@ -893,7 +1025,7 @@ theorem joint_step {st : State} {m : Send} {r : Recv} (hs : SInv (view st) m) (h
     obtain ⟨r1, b1, b2⟩ := rsim_apply hs h op hok
     split
     · obtain ⟨m2, a3, a4⟩ := sim_resumePending a2
-      obtain ⟨r2, b3, b4⟩ := rsim_resumePending b2 (fun x y z hx => a2.pendOpen x y z hx)
+      obtain ⟨r2, b3, b4⟩ := rsim_resumePending b2 (fun x hx => a2.pendOpen x hx)
       refine ⟨m2, r2, ?_, ?_, a4, b4⟩
       · rw [opEvents_append]; exact send_run_ok_append a1 a3
       · rw [opEvents_append]; exact recv_run_ok_append b1 b3
